@@ -59,7 +59,9 @@ def check_truth(ctx, index, logical, metric, trace, stats, what):
         else:
             for i in range(n):
                 row = [int(x) for x in ind[i] if x >= 0]
-                if not row and n > ind.shape[1] + 1:
+                if not row and n > ind.shape[1] + 1 and any(
+                        np.isfinite(ref_distance(metric, logical[i], logical[j]) or np.inf) for j in range(n) if j != i):
+                    # (a point at infinite distance from every other point, e.g. an all-zero row under bit_jaccard, has no neighbours)
                     problems.append("row %d of the neighbor graph is empty (all -1) although the logical dataset has %d points: the point is not indexed" % (i, n))
                     break
                 if len(set(row)) != len(row):
